@@ -298,6 +298,11 @@ async fn scatter_sql_over_table(
             elapsed_ms: started.elapsed().as_secs_f64() * 1000.0,
             local: true,
         });
+        if r.batches.is_empty() {
+            // A rowless plain SELECT returns no batch at all; merge() still needs
+            // the schema, exactly as decode_ipc keeps one for a remote shard.
+            batches.push(RecordBatch::new_empty(r.schema.clone()));
+        }
         batches.extend(r.batches);
         return Ok((batches, contributions));
     }
@@ -356,6 +361,12 @@ async fn scatter_sql_over_table(
             elapsed_ms: elapsed.as_secs_f64() * 1000.0,
             local: true,
         });
+        if r.batches.is_empty() {
+            // Same placeholder decode_ipc leaves for a remote shard: without it a
+            // cluster whose only active shard is the initiator's own fails an empty
+            // answer with "no shard returned a schema".
+            batches.push(RecordBatch::new_empty(r.schema.clone()));
+        }
         batches.extend(r.batches);
     }
 
